@@ -120,6 +120,10 @@ class PROP(PropCheck):
             ('IMPORT MOD "MATH.ap"\nDISPLAY(fake())\nDISPLAY(SIN(0))\n', "err", None),
             ('IMPORT MOD "priv.ap"\nDISPLAY(calls_private(1))\n', "f21", "101\n"),
             ('PROCEDURE pub(a) { RETURN 0 }\nIMPORT MOD "m.ap"\nDISPLAY(pub(4))\n', "ok", "mod top\n8\n"),
+            # an empty selection is not a selection of everything: it is not a program at all
+            ('IMPORT [] FROM MOD "MATH"\nDISPLAY(FLOOR(1.5))\n', "parse", None), ('IMPORT [] FROM MOD "m.ap"\nDISPLAY(pub(1))\n', "parse", None),
+            # what a module imported for its own use is not re-exported to its importer
+            ('IMPORT MOD "sub/n.ap"\nDISPLAY(fromo())\n', "err", None),
         ]
         for src, cls, exp in progs:
             out.append(Case(src, mods=dict(mods), meta={"kind": "user", "cls": cls, "exp": exp}, kind="corpus"))
@@ -172,6 +176,8 @@ class PROP(PropCheck):
             return None
         if m["cls"] == "err":
             return None if r["cls"] == "RT" else "expected a runtime diagnostic, got " + (impl or "")[:100]
+        if m["cls"] == "parse":
+            return None if r["cls"] == "PARSEERR" else "expected a syntax diagnostic, got " + (impl or "")[:100]
         if m["cls"] in ("ok", "f21"):
             if r["cls"] != "OK" or r["out"] != m["exp"]:
                 return "user-module scenario: expected %r, got %s %r" % (m["exp"], r["cls"], r["out"][:100])
